@@ -641,6 +641,7 @@ func init() {
 		r.Assume("paths are hand-built (no control plane); each path's next hop is its own scripted server; clients are told apart by DSCP; data race reports are recorded as observations (the property does not claim race freedom)")
 		if r.Only() == "" || r.Only() == "main:c15wiring" {
 			runMainLeg(r, "c15wiring")
+			runMainLeg(r, "c15service", "VERIF_MAINLEG_IPS="+blockIP(r, 15, 31).String()+","+blockIP(r, 15, 32).String(), fmt.Sprintf("VERIF_MAINLEG_ROUNDS=%d", r.Pick(14, 120)))
 		}
 		r.Finish("part 1: crypto.Sample for k,n in 0..13 (and n up to 299) with crypto/rand.Reader replaced by a scripted word source (uniform, and small words that rejection sampling must retry): return value, range and injectivity of the pick(dst,src) assignment; "+
 			"RandIntn at the rejection threshold 2^32 mod n for 13 values of n; chi-square uniformity of the chosen k-subsets for 9 (k,n) pairs. part 2: rounds of the real MeasureClockOffsetSCION with 1..9 clients, interleaved mode on/off, 0..12 offered paths "+
